@@ -111,11 +111,19 @@ func (in *Interp) errorIs(e IfaceV, target IfaceV) bool {
 	if in.valEq(e, target).IsTrue() {
 		return true
 	}
-	if mo, ok := e.V.(*ModelObj); ok && mo.Kind == "error" {
-		for _, w := range mo.Data.(*errData).wraps {
-			if in.errorIs(w, target) {
-				return true
+	if mo, ok := e.V.(*ModelObj); ok {
+		if mo.Kind == "error" {
+			for _, w := range mo.Data.(*errData).wraps {
+				if in.errorIs(w, target) {
+					return true
+				}
 			}
+		}
+		return false
+	}
+	if um := in.prog.LookupMethod(e.T, nil, "Unwrap"); um != nil && um.Signature.Results().Len() == 1 {
+		if r, ok := in.call(um, []Value{e.V}).(IfaceV); ok {
+			return in.errorIs(r, target)
 		}
 	}
 	return false
@@ -417,6 +425,44 @@ func registerNatives(in *Interp) {
 	}
 	n["errors.Is"] = func(in *Interp, fn *ssa.Function, args []Value) Value {
 		return in.tb.Bool(in.errorIs(args[0].(IfaceV), args[1].(IfaceV)))
+	}
+	n["errors.As"] = func(in *Interp, fn *ssa.Function, args []Value) Value {
+		e := args[0].(IfaceV)
+		tgt := args[1].(IfaceV)
+		pt, ok := tgt.T.Underlying().(*types.Pointer)
+		if !ok {
+			panic("errors.As: target is not a pointer")
+		}
+		want := pt.Elem()
+		for depth := 0; depth < 8 && e.T != nil; depth++ {
+			if it, isI := want.Underlying().(*types.Interface); isI {
+				if in.implements(e, it) {
+					in.store(tgt.V.(Ptr), e)
+					return in.tb.True
+				}
+			} else if _, isM := e.V.(*ModelObj); !isM && types.Identical(e.T, want) {
+				in.store(tgt.V.(Ptr), e.V)
+				return in.tb.True
+			}
+			// unwrap
+			if mo, ok := e.V.(*ModelObj); ok {
+				if mo.Kind != "error" || len(mo.Data.(*errData).wraps) == 0 {
+					break
+				}
+				e = mo.Data.(*errData).wraps[0]
+				continue
+			}
+			um := in.prog.LookupMethod(e.T, nil, "Unwrap")
+			if um == nil || um.Signature.Results().Len() != 1 {
+				break
+			}
+			r, ok := in.call(um, []Value{e.V}).(IfaceV)
+			if !ok {
+				break
+			}
+			e = r
+		}
+		return in.tb.False
 	}
 	n["errors.Unwrap"] = func(in *Interp, fn *ssa.Function, args []Value) Value {
 		e := args[0].(IfaceV)
